@@ -353,8 +353,8 @@ Definition lstep (c : config) (l aux : nat) (s : state) : option state :=
   | LWorkDone =>
       (* lines 318-320, then the callbacks *)
       let s := sync_ev (sync_ev s l (SLockQ l)) l (SUnlockQ l) in
-      let x := lset_pc (lset_in_done (lset_wq x []) true) LReady in
-      Some (deliver c l (l_wq (lp s l)) (set_loop s l x))
+      let x := lset_pc (lset_in_done (lset_local (lset_wq x []) (l_wq x)) true) LReady in
+      Some (deliver c l (l_local x) (set_loop s l x))
   | LDrain =>
       if l_pending x then
         Some (set_loop (sync_ev s l SPoll) l (lset_pc (lset_pending x false) LWorkDone))
